@@ -13,11 +13,8 @@ Context {F : Type} {NF : Num F}.
 Notation mval := (@mval F).
 Notation val := (@val F).
 
-(* payloads of generic streams: the types the crate's generic streams are instantiated with *)
-Inductive pay := PF (x : F) | PQ (q : @quantity F) | PB (b : bool) | PS (s : @state F) | PC (k : @command F).
-Definition pv (p : pay) : val :=
-  match p with PF x => VF x | PQ q => VQ q | PB b => VB b | PS s => VS s | PC k => VC k end.
-
+Notation pay := (@pay F).
+Notation pv := (@pv F).
 Definition m_f (x : F) : mval := MV (VF x).
 Definition m_q (q : @quantity F) : mval := MV (VQ q).
 Definition m_t (t : Z) : mval := MV (VT t).
@@ -99,7 +96,7 @@ Ltac res_cases :=
   match goal with
   | |- context [match ?r with Ok _ => _ | Panic => _ end] =>
       lazymatch r with
-      | qadd _ _ _ => idtac | qsub _ _ _ => idtac | iadd _ _ => idtac | isub _ _ => idtac | uadd _ _ _ => idtac | usub _ _ _ => idtac
+      | qadd _ _ _ => idtac | qsub _ _ _ => idtac | iadd _ _ => idtac | isub _ _ => idtac | uadd _ _ _ => idtac | usub _ _ _ => idtac | ineg _ => idtac
       | assert_ok _ _ _ => idtac | assert_not_ok _ _ _ => idtac | snew _ _ _ _ => idtac
       end;
       let E := fresh "E" in destruct r eqn:E; cbn; unfold arith_i; cbn; try rewrite E; try reflexivity
@@ -127,6 +124,10 @@ Ltac stuck_head t :=
 Ltac mr_norm :=
   lazy -[isub iadd imul idiv ineg qadd qsub qmul qdiv qneg qabs snew assert_ok assert_not_ok q_of_time q_of_dint
          qdimless s_get_value time_of_q dint_of_q c_eqb s_eqb qeqb c_add c_sub Z.gtb Z.ltb Z.geb Z.max Z.min].
+(* case analysis on a stuck scrutinee - or, when the context already knows its value (an equation produced by an earlier
+   case analysis or put there by the proof script), rewriting with that *)
+Ltac mr_atom h :=
+  first [ match goal with H : h = _ |- _ => rewrite H end | destruct h eqn:? ].
 Ltac mr_split :=
   lazymatch goal with
   | |- ?l = ?r =>
@@ -135,10 +136,10 @@ Ltac mr_split :=
       | h => let g := stuck_head r in
              lazymatch r with
              | g => (* both sides are constructor-headed: a stuck match below a constructor *)
-                    match goal with |- context [match ?s with _ => _ end] => let k := stuck_head s in destruct k eqn:? end
-             | _ => destruct g eqn:?
+                    match goal with |- context [match ?s with _ => _ end] => let k := stuck_head s in mr_atom k end
+             | _ => mr_atom g
              end
-      | _ => destruct h eqn:?
+      | _ => mr_atom h
       end
   end.
 Ltac mr_exec := unfold run_fn; repeat (mr_norm; mr_split); mr_norm; try reflexivity.
@@ -169,13 +170,15 @@ Ltac split_inputs :=
   end.
 
 (* flattening commutes with sequencing (used for loops, where the number of iterations is not a literal) *)
-Lemma flatten_tmap {X Y} (f : X -> tree Y) (t : tree X) :
+Lemma flatten_tmap {F} {NF : Num F} {X Y} (f : X -> @tree F Y) (t : @tree F X) :
   flatten (tmap f t) = match flatten t with Ok x => flatten (f x) | Panic => Panic end.
 Proof.
-  induction t as [x|A r k IH|b x IHx y IHy]; cbn [tmap flatten].
+  induction t as [x|A r k IH|b x IHx y IHy|A o ks IHs kn IHn|p k IH]; cbn [tmap flatten].
   - reflexivity.
   - destruct r; [apply IH|reflexivity].
   - destruct b; assumption.
+  - destruct o; [apply IHs|apply IHn].
+  - destruct p; apply IH.
 Qed.
 Lemma flatten_tbind {F} {NF : Num F} (t : tree (@outcome F)) k :
   flatten (tbind t k) = match flatten t with
